@@ -276,6 +276,19 @@ pub struct Topology {
     pub tablets_ext: bool,
 }
 
+/// (C04 `e2e ring`) Rows of `system.local` / `system.peers` described differently from the topology, and rows of nodes
+/// that do not exist: the control connection must cope with null datacenter / rack / tokens / host id and with rows it
+/// cannot deserialise.  Process-wide like `ADVERTISE_LWT_MARK` (cases run one at a time); the case that sets it resets it.
+#[derive(Clone, Debug, Default)]
+pub struct RowOverrides {
+    /// node index -> the five cells (host_id, rpc_address, data_center, rack, tokens) this node is described by, in its
+    /// own `system.local` and in the `system.peers` of the others
+    pub node_cells: std::collections::HashMap<usize, Vec<Cell>>,
+    /// extra `system.peers` rows (five cells each) reported by every node
+    pub extra_peers: Vec<Vec<Cell>>,
+}
+pub static ROW_OVERRIDES: Mutex<Option<RowOverrides>> = Mutex::new(None);
+
 pub fn host_id_of(i: usize) -> [u8; 16] {
     let mut h = [0u8; 16];
     h[0] = 0xAB;
@@ -398,11 +411,21 @@ struct State {
     meta_gate: bool,
     meta_held: usize,
     meta_verdict: Option<bool>,
+    /// C19: the nodes whose gated query is currently held
+    meta_held_nodes: Vec<usize>,
+    /// C19: a `false` verdict resets the connection instead of answering ERROR (a multi-node fetch tolerates an
+    /// ERROR on `system.local` alone - the row is "skipped" -, a broken connection fails it)
+    meta_fail_reset: bool,
 }
 
 /// The control connection's `SELECT … FROM system.local WHERE key='local'` (QUERY or EXECUTE of the prepared id).
 fn is_local_rows_query(parsed: &Parsed) -> bool {
-    let local = SYSTEM_TEXTS.iter().position(|s| *s == "system.local");
+    is_rows_query_of(parsed, "system.local")
+}
+
+/// The rows query (not the schema_version one) of a system table.
+fn is_rows_query_of(parsed: &Parsed, table: &str) -> bool {
+    let local = SYSTEM_TEXTS.iter().position(|s| *s == table);
     match parsed {
         Parsed::Query { text, .. } => system_statement(text) && classify(text).is_some_and(|(ti, ver)| Some(ti) == local && !ver),
         Parsed::Execute { id, .. } => id.len() == 16 && id.starts_with(b"SYS") && Some(id[3] as usize) == local && id[4] == 0,
@@ -493,6 +516,8 @@ impl MockCluster {
                 meta_gate: false,
                 meta_held: 0,
                 meta_verdict: None,
+                meta_held_nodes: Vec::new(),
+                meta_fail_reset: false,
             }),
             handler: Mutex::new(handler),
         });
@@ -694,6 +719,21 @@ impl MockCluster {
     /// Lets ONE held (or the next arriving) gated query through: `ok` = answered normally, else answered with ERROR.
     pub fn release_meta(&self, ok: bool) {
         self.shared.st.lock().unwrap().meta_verdict = Some(ok);
+    }
+
+    /// C19: make a `false` verdict of `release_meta` reset the connection instead of answering ERROR.
+    pub fn set_meta_fail_reset(&self, on: bool) {
+        self.shared.st.lock().unwrap().meta_fail_reset = on;
+    }
+
+    /// C19: the node whose gated metadata query is held right now, if any.
+    pub fn meta_held_node(&self) -> Option<usize> {
+        self.shared.st.lock().unwrap().meta_held_nodes.first().copied()
+    }
+
+    /// C19: changes the datacenter a node reports (in every node's `system.local` / `system.peers` rows from now on).
+    pub fn set_node_dc(&self, node: usize, dc: &str) {
+        self.shared.st.lock().unwrap().topo.nodes[node].dc = dc.to_owned();
     }
 
     /// Has the verdict handed out by `release_meta` not been consumed by a gated query yet?
@@ -914,7 +954,10 @@ async fn serve_conn(
         };
         // C19: scripted outcome of the `system.local` rows query, one per full metadata fetch (`set_meta_gate`)
         let mut internal_actions = internal_actions;
-        if req.internal && is_local_rows_query(&req.parsed) {
+        // in reset mode the gate sits on the FIRST query of a fetch (`system.peers`), so that a `false` verdict fails
+        // the whole fetch (an error on `system.local` alone is tolerated by a multi-node fetch: the row is skipped)
+        let gate_on_peers = shared.st.lock().unwrap().meta_fail_reset;
+        if req.internal && (if gate_on_peers { is_rows_query_of(&req.parsed, "system.peers") } else { is_local_rows_query(&req.parsed) }) {
             let mut counted = false;
             let verdict = loop {
                 {
@@ -922,28 +965,34 @@ async fn serve_conn(
                     if !st.meta_gate {
                         if counted {
                             st.meta_held -= 1;
+                            st.meta_held_nodes.retain(|n| *n != node);
                         }
                         break true;
                     }
                     if !counted {
                         st.meta_held += 1;
+                        st.meta_held_nodes.push(node);
                         counted = true;
                     }
                     if let Some(v) = st.meta_verdict.take() {
                         st.meta_held -= 1;
+                        st.meta_held_nodes.retain(|n| *n != node);
                         break v;
                     }
                 }
                 tokio::select! {
                     _ = tokio::time::sleep(Duration::from_micros(200)) => {}
                     _ = kill.notified() => {
-                        shared.st.lock().unwrap().meta_held -= 1;
+                        let mut st = shared.st.lock().unwrap();
+                        st.meta_held -= 1;
+                        st.meta_held_nodes.retain(|n| *n != node);
                         return;
                     }
                 }
             };
             if !verdict {
-                internal_actions = Some(vec![act_error(0x0000, "scripted metadata failure", &[])]);
+                let reset = shared.st.lock().unwrap().meta_fail_reset;
+                internal_actions = Some(vec![if reset { Act::Reset } else { act_error(0x0000, "scripted metadata failure", &[]) }]);
             }
         }
         let is_startup = matches!(req.parsed, Parsed::Startup(_));
@@ -1128,7 +1177,11 @@ fn system_rows(st: &State, node: usize, table_idx: usize, wants_version: bool) -
     let (ks, tb) = table.split_once('.')?;
     let text_set = CqlT::Set(Box::new(t_text()));
     let text_list = CqlT::List(Box::new(t_text()));
+    let overrides: Option<RowOverrides> = ROW_OVERRIDES.lock().unwrap().clone();
     let node_cells = |i: usize| -> Vec<Cell> {
+        if let Some(c) = overrides.as_ref().and_then(|o| o.node_cells.get(&i)) {
+            return c.clone();
+        }
         let n = &st.topo.nodes[i];
         vec![
             c_uuid(&n.host_id),
@@ -1162,7 +1215,10 @@ fn system_rows(st: &State, node: usize, table_idx: usize, wants_version: bool) -
                     ("tokens", text_set),
                 ],
             );
-            let rows = (0..st.topo.nodes.len()).filter(|i| *i != node).map(node_cells).collect();
+            let mut rows: Vec<Vec<Cell>> = (0..st.topo.nodes.len()).filter(|i| *i != node).map(node_cells).collect();
+            if let Some(o) = &overrides {
+                rows.extend(o.extra_peers.iter().cloned());
+            }
             (specs, rows)
         }
         "system.local" => {
@@ -1210,7 +1266,15 @@ fn system_rows(st: &State, node: usize, table_idx: usize, wants_version: bool) -
         }
         "system_schema.views" => {
             let specs = Specs::new(ks, tb, &[("keyspace_name", t_text()), ("view_name", t_text()), ("base_table_name", t_text())]);
-            (specs, vec![])
+            // materialized views registered in VIEWS (C03's `sesspart` only), for keyspaces of this topology
+            let rows = VIEWS
+                .lock()
+                .unwrap()
+                .iter()
+                .filter(|(k, _, _)| st.topo.keyspaces.iter().any(|x| x.name == *k))
+                .map(|(k, v, base)| vec![c_text(k), c_text(&v.name), c_text(base)])
+                .collect();
+            (specs, rows)
         }
         "system_schema.columns" => {
             let specs = Specs::new(
@@ -1226,8 +1290,10 @@ fn system_rows(st: &State, node: usize, table_idx: usize, wants_version: bool) -
                 ],
             );
             let mut rows = Vec::new();
+            // the columns of registered materialized views (C03's `sesspart` only) are listed like a table's
+            let views: Vec<(String, TableSpec, String)> = VIEWS.lock().unwrap().clone();
             for k in &st.topo.keyspaces {
-                for t in &k.tables {
+                for t in k.tables.iter().chain(views.iter().filter(|(vk, _, _)| *vk == k.name).map(|(_, v, _)| v)) {
                     let groups: [(&str, &Vec<(String, String)>); 3] =
                         [("partition_key", &t.partition_key), ("clustering", &t.clustering), ("regular", &t.regular)];
                     for (kind, cols) in groups {
@@ -1243,7 +1309,10 @@ fn system_rows(st: &State, node: usize, table_idx: usize, wants_version: bool) -
         "system_schema.scylla_tables" => {
             let specs = Specs::new(ks, tb, &[("keyspace_name", t_text()), ("table_name", t_text()), ("partitioner", t_text())]);
             // `partitioner`: null unless registered in TABLE_PARTITIONERS (C03's `e2e partitioner` family)
-            let rows = st.topo.keyspaces.iter().flat_map(|k| k.tables.iter().map(move |t| vec![c_text(&k.name), c_text(&t.name), table_partitioner(&k.name, &t.name).map(|p| p.into_bytes())])).collect();
+            let mut rows: Vec<Vec<Cell>> = st.topo.keyspaces.iter().flat_map(|k| k.tables.iter().map(move |t| vec![c_text(&k.name), c_text(&t.name), table_partitioner(&k.name, &t.name).map(|p| p.into_bytes())])).collect();
+            for (k, v, _) in VIEWS.lock().unwrap().iter().filter(|(k, _, _)| st.topo.keyspaces.iter().any(|x| x.name == *k)) {
+                rows.push(vec![c_text(k), c_text(&v.name), table_partitioner(k, &v.name).map(|p| p.into_bytes())]);
+            }
             (specs, rows)
         }
         "system_schema.scylla_keyspaces" => {
@@ -1259,6 +1328,10 @@ fn system_rows(st: &State, node: usize, table_idx: usize, wants_version: bool) -
 /// process-wide registry so that `TableSpec` keeps its shape; only C03's `e2e partitioner` family registers names, for
 /// tables no other family uses.
 pub static TABLE_PARTITIONERS: Mutex<Vec<(String, String)>> = Mutex::new(Vec::new());
+
+/// Materialized views `system_schema.views` / `system_schema.columns` report: (keyspace, the view's columns as a
+/// `TableSpec`, base table name). Process-wide like TABLE_PARTITIONERS; only C03's `sesspart` registers views.
+pub static VIEWS: Mutex<Vec<(String, TableSpec, String)>> = Mutex::new(Vec::new());
 
 fn table_partitioner(ks: &str, table: &str) -> Option<String> {
     let key = format!("{ks}.{table}");
